@@ -428,6 +428,11 @@ class LayoutHandler(LayoutManager):
         self._layouts = dict(layoutObjects)
         self.nLayouts = len(self._layouts)
 
+        # A process which is only here for plotting purposes is set up with
+        # empty grids. This is the same for all members of the communicators,
+        # unlike the local buffer size which may be zero on some processes only
+        self._has_data = all(len(eta_grid) != 0 for eta_grid in eta_grids)
+
         # Initialise the buffer size before the loop
         self._buffer_size = layoutObjects[0][1].size
 
@@ -514,7 +519,7 @@ class LayoutHandler(LayoutManager):
 
         """
         # If this thread is only here for plotting purposes then ignore the command
-        if (self._buffer_size == 0):
+        if (not self._has_data):
             return
 
         # Verify that the input makes sense
